@@ -33,10 +33,12 @@ def sub_summary(evn):
         elif e['ev'] == 'Return':
             ret = e
     if ret is None:
-        return {'ok': False, 'id': 'nil', 'leaves': []}
+        return {'ok': False, 'id': 'nil', 'leaves': [], 'err': 'nil'}
     if ret['iserr']:
-        return {'ok': False, 'id': 'nil', 'leaves': []}
-    return {'ok': True, 'id': ret['id'], 'leaves': out_leaves}
+        # the recorder keeps the first 300 characters of an error text; a shorter text is complete
+        err = ret.get('err') or 'nil'
+        return {'ok': False, 'id': 'nil', 'leaves': [], 'err': err if len(err) < 300 else 'nil'}
+    return {'ok': True, 'id': ret['id'], 'leaves': out_leaves, 'err': 'nil'}
 
 
 def cases_from_result(r, wf_by_file, inputs, main='workflow.yaml', sub_inputs=None, expect_items=None, pure=False):
@@ -101,7 +103,7 @@ def cases_from_result(r, wf_by_file, inputs, main='workflow.yaml', sub_inputs=No
         stab = {}
         for st, lst in subs.get(ru['run'], {}).items():
             lst = sorted(lst, key=lambda x: x[0])
-            stab[st] = [{'i': i, 'ok': s['ok'], 'id': s['id'], 'leaves': s['leaves']} for i, s, _ in lst]
+            stab[st] = [{'i': i, 'ok': s['ok'], 'id': s['id'], 'leaves': s['leaves'], 'err': s['err']} for i, s, _ in lst]
         evn = normed[ru['run']]
         cases.append({'wf': strip_wf(wf_by_file[f]), 'input': inleaves, 'noreturn': False, 'subs': stab,
                       'expectItems': (expect_items or {}) if ru['parent'] is None else {},
